@@ -438,9 +438,48 @@ def stage_archives(rep, tier, info):
             return "NOTARCH"
         body = ans.split(" | ")[0].split()[1:]
         return [(bytes.fromhex(x.split(":")[0]).decode("latin1"), int(x.split(":")[1], 16)) for x in body]
+    def reduced(d):
+        """The same archive with every member's data cut to at most 64 bytes (size fields rewritten; the '//' name
+        table and every header kept): the extracted reader walks the file from its start for every field, which is
+        quadratic for multi-megabyte archives, and the member data is irrelevant to finding the members."""
+        out, pos = bytearray(d[:8]), 8
+        while pos + 60 <= len(d):
+            h = d[pos:pos + 60]
+            try:
+                size = int(h[48:58].decode("ascii").strip() or "0")
+            except ValueError:
+                return None
+            data = d[pos + 60:pos + 60 + size]
+            if not h.startswith(b"//") and size > 64:
+                data = data[:64]
+            out += h[:48] + (b"%-10d" % len(data)) + h[58:60] + data + (b"\n" if len(data) & 1 else b"")
+            pos += 60 + size + (size & 1)
+        return bytes(out)
+    st["reduced"] = 0
     for f in als:
         d = open(f, "rb").read()
         st["archives"] += 1
+        if len(d) > 400000:
+            # full file: archive.c against the independent parser; model on the reduced archive below
+            c0 = har.ask("armembers " + f, timeout=300)
+            try:
+                cm0 = [(bytes.fromhex(x.split(":")[0]).decode("latin1"), int(x.split(":")[1], 16)) for x in (c0 or "").split("|")[0].split()]
+                e0 = int(c0.split("|")[1].strip()[1:])
+            except Exception:
+                cm0, e0 = None, None
+            if cm0 != py_ar_members(d) or e0 != 0:
+                st["bad"] += 1
+                rep.violation("archive.c does not find the members of an intact archive: %s" % os.path.basename(f),
+                              {"kind": "ar", "file": f, "arRead": str(cm0)[:300], "expected": str(py_ar_members(d))[:300], "errors": e0},
+                              key="ar:intact:members-differ")
+                continue
+            rd = reduced(d)
+            if rd is None:
+                continue
+            st["reduced"] += 1
+            f = os.path.join(work, "reduced-%d.al" % st["archives"])
+            open(f, "wb").write(rd)
+            d = rd
         a = drv.ask("ar " + c05.hexb(d), timeout=600)
         m = members_of(a)
         c = har.ask("armembers " + f, timeout=120)
